@@ -263,13 +263,49 @@ theorem schemaDefs_schemaToDoc (s : SchemaD) :
 
 /-! ### root operation types and the `schema { … }` block rule -/
 
-def rootResolves (s : SchemaD) (r : Option String) : Bool := match r with | some q => (docEnv s).resolves q | none => true
+/-- a root operation type, if set, is an OBJECT type of the schema (the validity rule for roots) -/
+def rootIsObject (s : SchemaD) (r : Option String) : Bool :=
+  match r with | some q => s.types.any (fun t => t.name == q && t.kind == .object) | none => true
 
-/-- the roots name known types, and when the printer omits the `schema` block (all roots conventional) the default
-    root names denote exactly the schema's roots (e.g. no stray object type called `Mutation`) -/
-def rootsOK (s : SchemaD) : Bool :=
-  rootResolves s s.query && rootResolves s s.mutation && rootResolves s s.subscription &&
-  (needsSchemaBlock s || decide (defaultRoots s.types = ⟨s.query, s.mutation, s.subscription⟩))
+/-- the three roots are object types of the schema. (Since fix H9 nothing more is needed: the printer writes the
+    `schema` block whenever re-reading the document would not infer the same roots.) -/
+def rootsOK (s : SchemaD) : Bool := rootIsObject s s.query && rootIsObject s s.mutation && rootIsObject s s.subscription
+
+theorem root_resolves (s : SchemaD) (q : String) (h : s.types.any (fun t => t.name == q && t.kind == .object) = true) :
+    (docEnv s).resolves q = true := by
+  obtain ⟨t, ht, hq⟩ := List.any_eq_true.mp h
+  simp only [Bool.and_eq_true] at hq
+  have hf : (s.findType q).isSome = true := by
+    simp only [SchemaD.findType, List.find?_isSome]
+    exact ⟨t, ht, hq.1⟩
+  simp only [Env.resolves, docEnv_findDef, Option.isSome_map, hf, Bool.or_true]
+
+/-- the H9 rule is exactly what makes the default root names right: if the printer omits the `schema` block, reading
+    the document back infers the schema's own roots -/
+theorem defaultRoots_of_implied (s : SchemaD) (hn : needsSchemaBlock s = false) (hr : rootsOK s = true) :
+    defaultRoots s.types = ⟨s.query, s.mutation, s.subscription⟩ := by
+  have pick : ∀ (r : Option String) (n : String), rootImplied s r n = true → rootIsObject s r = true →
+      (if s.types.any (fun t => t.name == n && t.kind == .object) then some n else none) = r := by
+    intro r n hi ho
+    cases r with
+    | none =>
+      simp only [rootImplied, Bool.not_eq_true'] at hi
+      have : s.types.any (fun t => t.name == n && t.kind == .object) = false := by
+        rw [List.any_eq_false] at hi ⊢
+        intro t ht
+        have := hi t ht
+        simp [this]
+      simp [this]
+    | some x =>
+      simp only [rootImplied] at hi
+      have e : x = n := by simpa using hi
+      subst e
+      simp only [rootIsObject] at ho
+      simp [ho]
+  simp only [needsSchemaBlock, Bool.not_eq_false', Bool.and_eq_true] at hn
+  simp only [rootsOK, Bool.and_eq_true] at hr
+  simp only [defaultRoots]
+  rw [pick s.query "Query" hn.1.1 hr.1.1, pick s.mutation "Mutation" hn.1.2 hr.1.2, pick s.subscription "Subscription" hn.2 hr.2]
 
 theorem roots_addOps (s : SchemaD) (res : String → Bool) (hq : ∀ q, s.query = some q → res q = true)
     (hm : ∀ q, s.mutation = some q → res q = true) (hs : ∀ q, s.subscription = some q → res q = true) :
@@ -284,7 +320,7 @@ theorem roots_addOps (s : SchemaD) (res : String → Bool) (hq : ∀ q, s.query 
       NoH3 / NoH8 —, SDL-style enum values, non-empty descriptions — NoH5 — and deprecation reasons — NoH6 —, no
       resolver attached: by-name content), every directive definition is `directiveOK`;
     * type names and directive names are unique and do not shadow built-in ones;
-    * the roots are `rootsOK`; no type refers to itself eagerly, no default value needs its own type's fields. -/
+    * the roots are object types of the schema (`rootsOK`); no type refers to itself eagerly, no default value needs its own type's fields. -/
 def printBuildWF (s : SchemaD) : Bool :=
   s.types.all (typeOK s) && s.directives.all (directiveOK s) && !hasDup (s.types.map (·.name)) && !hasDup (s.directives.map (·.name)) &&
   rootsOK s && !hasThunkCycle (docEnv s) (s.types.map (typeToDef s)) && !hasEagerCycle s.types && s.defaultResolver.isNone
@@ -300,14 +336,11 @@ theorem declared_schemaToDoc (s : SchemaD) (h : printBuildWF s = true) : Declare
     mapM_to_doc _ _ _ (fun d hd => directive_to_doc_build s d (hdi d hd))
   have hroots : declaredRoots (schemaToDoc s) s.types = ⟨s.query, s.mutation, s.subscription⟩ := by
     simp only [declaredRoots, schemaExtensions_schemaToDoc, schemaDefs_schemaToDoc, List.foldl_nil]
-    simp only [rootsOK, Bool.and_eq_true, Bool.or_eq_true, decide_eq_true_eq] at hro
     by_cases hn : needsSchemaBlock s = true
     · simp only [hn, if_true]
       cases hq : s.query <;> cases hm : s.mutation <;> cases hs : s.subscription <;> simp [rootOps, hq, hm, hs, Roots.set]
     · simp only [hn, Bool.false_eq_true, if_false]
-      rcases hro.2 with h' | h'
-      · exact absurd h' hn
-      · exact h'
+      exact defaultRoots_of_implied s (by simpa using hn) hro
   unfold Declared
   simp only [hmerged, dirDefs_schemaToDoc]
   have e : Env.of (s.types.map (typeToDef s)) = docEnv s := rfl
@@ -355,17 +388,16 @@ theorem print_build_roundtrip (s : SchemaD) (h : printBuildWF s = true) : build 
         rw [this.2]; simp
       rootsOk := by
         rw [htd, schemaDefs_schemaToDoc]
-        simp only [rootsOK, Bool.and_eq_true, Bool.or_eq_true, decide_eq_true_eq] at hro
+        have hro' := hro
+        simp only [rootsOK, Bool.and_eq_true] at hro'
         by_cases hn : needsSchemaBlock s = true
         · simp only [hn, if_true, List.head?_cons, buildRoots]
           have e : Env.of (s.types.map (typeToDef s)) = docEnv s := rfl
           rw [e]
-          exact roots_addOps s _ (fun q e => by have := hro.1.1.1; simpa [rootResolves, e] using this)
-            (fun q e => by have := hro.1.1.2; simpa [rootResolves, e] using this)
-            (fun q e => by have := hro.1.2; simpa [rootResolves, e] using this)
+          exact roots_addOps s _ (fun q e => by have := hro'.1.1; rw [e] at this; exact root_resolves s q this)
+            (fun q e => by have := hro'.1.2; rw [e] at this; exact root_resolves s q this)
+            (fun q e => by have := hro'.2; rw [e] at this; exact root_resolves s q this)
         · simp only [hn, Bool.false_eq_true, if_false, List.head?_nil, buildRoots, pure, Except.pure]
-          rcases hro.2 with h' | h'
-          · exact absurd h' hn
-          · rw [h'] }
+          rw [defaultRoots_of_implied s (by simpa using hn) hro] }
 
 end PyGql.Props.C12
